@@ -499,6 +499,33 @@ def check(repo: Repo, run: Run) -> None:
     st = dm.get("__str__")
     run.ob("C11.D2", "DurationType.__str__", st is not None and "int(self.total_seconds())" in ast.unparse(st) and "s'" in ast.unparse(st).replace('"', "'"), "string(duration) is whole seconds followed by 's'", ct.loc(st) if st else str(ct.path))
     check_exact_from_native(repo, run)
+    # D4: the results of timestamp arithmetic are judged (range-checked, compared) on exact quantities: the aware
+    # datetime itself or integer seconds.  `.timestamp()` is float seconds: near year 9999 one ulp is 30 us, so a
+    # bound test on it rejects (or admits) instants by rounding - `t + d` becomes an error for in-range results.
+    from ..core.model import class_methods_n as _cmn
+
+    tcls4 = ct.cls("TimestampType")
+    n4 = 0
+    bad4 = None
+    for mname4, fn4 in sorted(_cmn(tcls4).items()):
+        if mname4 not in ("__add__", "__radd__", "__sub__", "__rsub__"):
+            continue
+        n4 += 1
+        for c in ast.walk(fn4):
+            if isinstance(c, ast.Compare) and any(isinstance(x, ast.Call) and isinstance(x.func, ast.Attribute) and x.func.attr == "timestamp" and not x.args for x in ast.walk(c)):
+                bad4 = (mname4, c)
+    # helpers the operators call on their result (normal form expands private ones; public ones are looked up by name)
+    for mname4, fn4 in sorted(class_methods(tcls4).items()):
+        called = any(isinstance(x, ast.Call) and isinstance(x.func, ast.Attribute) and x.func.attr == mname4 for o in ("__add__", "__radd__", "__sub__") if o in class_methods(tcls4) for x in ast.walk(class_methods(tcls4)[o]))
+        if called and mname4 not in ("__add__", "__radd__", "__sub__"):
+            for c in ast.walk(fn4):
+                if isinstance(c, ast.Compare) and any(isinstance(x, ast.Call) and isinstance(x.func, ast.Attribute) and x.func.attr == "timestamp" and not x.args for x in ast.walk(c)):
+                    bad4 = (mname4, c)
+    if n4:
+        run.ob("C11.D4", "TimestampType arithmetic|exact comparisons", bad4 is None,
+               "no result of timestamp arithmetic is compared through float epoch seconds" if bad4 is None else
+               f"TimestampType.{bad4[0]} compares `{ast.unparse(bad4[1])[:60]}`: .timestamp() is float seconds (one ulp is ~30 us near year 9999), so in-range results next to the bound are rejected by rounding",
+               ct.loc(bad4[1]) if bad4 else ct.loc(tcls4))
 
 
 def check_exact_from_native(repo: Repo, run: Run) -> None:
